@@ -85,6 +85,20 @@ func genPoolGeom(t *rapid.T) *model.G {
 			g.C1 = append(g.C1, model.Bits(c))
 		}
 		return g
+	case 2: // a polygon (or two) without area: the centroid falls back to the rings' lines
+		g := &model.G{Kind: model.MultiPolygon, Layout: int(geom.XY)}
+		np := rapid.IntRange(1, 2).Draw(t, "np")
+		for i := 0; i < np; i++ {
+			ax, ay := float64(rapid.IntRange(-20, 20).Draw(t, "ax")), float64(rapid.IntRange(-20, 20).Draw(t, "ay"))
+			dx, dy := float64(rapid.IntRange(1, 5).Draw(t, "dx")), float64(rapid.IntRange(-5, 5).Draw(t, "dy"))
+			k := float64(rapid.IntRange(2, 6).Draw(t, "k"))
+			ring := [][]model.F{model.Bits([]float64{ax, ay}), model.Bits([]float64{ax + dx, ay + dy}), model.Bits([]float64{ax + k*dx, ay + k*dy}), model.Bits([]float64{ax, ay})}
+			g.C3 = append(g.C3, [][][]model.F{ring})
+		}
+		if np == 1 && rapid.Bool().Draw(t, "asPolygon") {
+			g.Kind, g.C2, g.C3 = model.Polygon, g.C3[0], nil
+		}
+		return g
 	case 1: // a flight track for the IGC encoder
 		n := rapid.IntRange(0, 6).Draw(t, "n")
 		g := &model.G{Kind: model.LineString, Layout: 5}
@@ -111,17 +125,33 @@ var inventory = []string{
 	"xyz.Distances", "bigxy.Orientation", "bigxy.Intersection", "transform.UniqueCoords",
 	"wkb.Marshal", "ewkb.Marshal", "wkbhex.Encode", "ewkbhex.Encode", "wkt.Marshal", "wkt.MarshalDigits", "geojson.Marshal", "geojson.MarshalBBox", "geojson.Feature", "igc.Encode", "kml.Encode",
 	"wkb.Unmarshal", "ewkb.Unmarshal", "ewkb.Scan", "wkt.Unmarshal", "geojson.Unmarshal", "igc.Read",
-	"geojson.MarshalSharedOpts", "geojson.MarshalSharedOpts", "wkt.MarshalSharedOpts", "wkb.UnmarshalSharedOpts",
+	"geojson.MarshalSharedOpts", "geojson.MarshalSharedOpts", "wkt.MarshalSharedOpts", "wkb.UnmarshalSharedOpts", "geojson.MarshalSharedSlice", "geojson.MarshalSharedSlice",
 }
 
 // Option values are plain values that callers naturally create once and pass to
 // many calls: these are shared by all goroutines of a case.
 var (
-	sharedGeoJSONDigits = []geojson.EncodeGeometryOption{geojson.EncodeGeometryWithMaxDecimalDigits(2), geojson.EncodeGeometryWithMaxDecimalDigits(5)}
-	sharedGeoJSONBBox   = geojson.EncodeGeometryWithBBox()
-	sharedWKTDigits     = []wkt.EncodeOption{wkt.EncodeOptionWithMaxDecimalDigits(1), wkt.EncodeOptionWithMaxDecimalDigits(4)}
-	sharedWKBNaN        = wkbcommon.WKBOptionEmptyPointHandling(wkbcommon.EmptyPointHandlingNaN)
+	sharedGeoJSONDigits []geojson.EncodeGeometryOption
+	sharedGeoJSONBBox   geojson.EncodeGeometryOption
+	sharedWKTDigits     []wkt.EncodeOption
+	// a whole option slice kept by the caller and passed as opts... to many calls
+	sharedGeoJSONSlices [][]geojson.EncodeGeometryOption
+	sharedWKBNaN        wkbcommon.WKBOption
 )
+
+// resetShared creates the shared option values afresh: every evaluation of the
+// property starts from the same state (a case must not inherit damage done by an
+// earlier one).
+func resetShared() {
+	sharedGeoJSONDigits = []geojson.EncodeGeometryOption{geojson.EncodeGeometryWithMaxDecimalDigits(2), geojson.EncodeGeometryWithMaxDecimalDigits(5)}
+	sharedGeoJSONBBox = geojson.EncodeGeometryWithBBox()
+	sharedWKTDigits = []wkt.EncodeOption{wkt.EncodeOptionWithMaxDecimalDigits(1), wkt.EncodeOptionWithMaxDecimalDigits(4)}
+	sharedGeoJSONSlices = [][]geojson.EncodeGeometryOption{
+		{geojson.EncodeGeometryWithBBox(), geojson.EncodeGeometryWithMaxDecimalDigits(3)},
+		{geojson.EncodeGeometryWithMaxDecimalDigits(1), geojson.EncodeGeometryWithBBox()},
+	}
+	sharedWKBNaN = wkbcommon.WKBOptionEmptyPointHandling(wkbcommon.EmptyPointHandlingNaN)
+}
 
 func genCase(t *rapid.T) Case {
 	c := Case{Goroutines: rapid.IntRange(4, 16).Draw(t, "goroutines")}
@@ -493,6 +523,12 @@ func execInner(pool []*item, c Call, geomRes func(geom.T, error) string, bytesRe
 		}
 		bts, err := geojson.Marshal(t, opts...)
 		return fmt.Sprint(string(bts), err)
+	case "geojson.MarshalSharedSlice":
+		if a.g.Layout == 5 || a.g.Empty() || a.g.IsCollection() || a.g.HasEmptyPart() {
+			return "n/a"
+		}
+		bts, err := geojson.Marshal(t, sharedGeoJSONSlices[c.B%2]...)
+		return fmt.Sprint(string(bts), err)
 	case "wkt.MarshalSharedOpts":
 		s, err := wkt.Marshal(t, sharedWKTDigits[c.B%2])
 		return fmt.Sprint(s, err)
@@ -642,6 +678,7 @@ func raceLogText() string {
 }
 
 func prop(c Case) error {
+	resetShared()
 	pool, err := buildPool(c)
 	if err != nil {
 		return fmt.Errorf("build pool: %v", err)
@@ -667,6 +704,20 @@ func prop(c Case) error {
 				return fmt.Errorf("the result of call %d %+v changed after it was returned (it aliases state that a later call modified):\n returned %s\n now      %s", i, c.Calls[i], clip(want[i]), clip(now))
 			}
 		}
+	}
+	// phase A2: the same calls in reverse order: "the result it returns when run
+	// alone" cannot depend on which calls ran before it (pooled or cached state)
+	for i := len(c.Calls) - 1; i >= 0; i-- {
+		var res string
+		if err := run.Safe(func() error { res = exec(pool, c.Calls[i]); return nil }); err != nil {
+			return fmt.Errorf("call %d %+v (reverse order): %v", i, c.Calls[i], err)
+		}
+		if res != want[i] {
+			return fmt.Errorf("call %d %+v returned a different result when the calls were run in reverse order (it depends on earlier calls):\n first pass   %s\n reverse pass %s", i, c.Calls[i], clip(want[i]), clip(res))
+		}
+	}
+	if after := snapPool(pool); after != before {
+		return fmt.Errorf("arguments changed during the reverse pass:\n%s", diffLine(before, after))
 	}
 	// phase B: the same mix from many goroutines on the same pool
 	raceBefore := raceLogSize()
